@@ -58,6 +58,7 @@ def check(ctx):
     ctx.rule("R4", "on a miss the complete source is compiled and the executed code is either the validated cache entry or that compilation", floor=6)
     ctx.rule("R5", "every input of the memoised compilation that can change its result is part of the cache key or a constant", floor=4)
     ctx.rule("R6", "the code-cache name is a digest of the complete text", floor=1)
+    ctx.rule("R7", "a cache entry is stored before the compiled code runs: nothing that executes user code lies between reading the source and stamping the entry (the entry's time is compared with the source's)", floor=2)
 
     mod = ctx.repo.module(CC)
     loads_seen = 0
@@ -368,6 +369,25 @@ def check(ctx):
             ok = any(c in hcalls for c in ast.walk(n.value) if isinstance(c, ast.Call))
             ctx.ob("R6", f"{CC}:code_cache_name", "the returned name is the digest", ok, key="digest-not-returned", where=loc(n))
 
+    # ---- R7: store-then-run.  script_cache_check trusts an entry that is not older than the source; an entry written
+    # after the script ran carries the end time of the run but the text of its start - an edit made meanwhile is lost.
+    RUNS = ("run_compiled_code", "exec", "eval")
+    n7 = 0
+    for m2 in ctx.repo.modules("xonsh", containing="update_cache"):
+        for q2, f2 in m2.functions():
+            ups = [c for c in calls_in(f2) if call_name(c) in ("update_cache", "codecache.update_cache", "xonsh.codecache.update_cache")]
+            if not ups:
+                continue
+            f2f = flat(ctx, f2, depth=1, skip=("update_cache", "run_compiled_code", "compile_code", "should_use_cache", "get_cache_filename") + tuple(CHECKS))
+            cfg7 = CFG(f2f)
+            up_n = [n for n in cfg7.nodes if n.kind == "stmt" and any(call_name(c) in ("update_cache", "codecache.update_cache", "xonsh.codecache.update_cache") for c in calls_in(n.ast))]
+            run_n = [n for n in cfg7.nodes if n.kind == "stmt" and any((call_name(c) or "").split(".")[-1] in RUNS for c in calls_in(n.ast))]
+            n7 += 1
+            ok, path = (True, None) if not run_n else cfg7.never_after(run_n, lambda m_: m_ in up_n)
+            ctx.ob("R7", f"{m2.rel}:{q2}", "update_cache() is not reachable after the compiled code was run" + ("" if run_n else " (nothing is run here)"), ok, key=f"{q2}|cache-stored-after-run", where=loc(ups[0]), path=cfg7.fmt_path(path) if path else None)
+    if n7 < 2:
+        raise AnalysisError(f"only {n7} functions storing cache entries found")
+
 
 META = {
     "technique": "static analysis: CFG guard dominance and handler reachability around marshal.load, def-use provenance of the executed code object and of the cache key",
@@ -382,4 +402,5 @@ META = {
     "mtime granularity and marshal's behaviour on decodable garbage are not decided.",
     "note": "Decides the listed structural clauses, not the behaviour. Trusted: marshal.load raises on a truncated "
     "stream; os.stat mtime semantics. Known findings (key misses context/mode) are listed in known_findings.json.",
+    "more": "Also decided: a cache entry is stored before the compiled code runs (its time stamp is compared with the source's).",
 }
